@@ -705,4 +705,6 @@ def run_property(cfg, tier, seed):
     print(f"PASS property={pid} tier={tier} seed={seed} theorems={proof['discharged']}/{proof['obligations']} "
           f"cases={res.evaluations if res else 0} distinct_nontrivial={len(res.distinct) if res else 0} "
           f"wall={time.time() - t0:.1f}s")
+    # the case files of a passing run are not needed again (disk space); a failing run keeps them
+    shutil.rmtree(f"{BUILD}/run/{cfg['family']}{ALT_TAG}", ignore_errors=True)
     return 0
